@@ -19,6 +19,12 @@ CHECKS = {
         text='Every generated tree is materialised on disk and every derived absolute name, relative specifier and import-line completion is compared with what importlib computes for the same (roots + sys.path). Differential against the real import machinery is the strongest executable oracle for this property; trees are sampled, the queries per tree are enumerated completely.',
         design_ref='DESIGN.md section 4 (C07)',
         note='Trusts importlib/pkgutil of CPython 3.12; only .py files are generated (extension modules referenced by name); namespace packages and module/package twins are outside the property domain.'),
+    'C01': dict(
+        technique='property-based differential testing against CPython itself: Hypothesis program generator + dynref (AST instrumentation, exhaustive decision enumeration with replay) as execution oracle',
+        category='exploration',
+        text='Every generated program is executed by CPython under every combination of branch outcomes / 0..2 loop trips / raise decisions (up to a cap), each successful identifier read is recorded by source position, and supp must show that identifier through lint, completion and names_at. The oracle is the real interpreter, so the check relates supp to what Python binds - which the unit tests never do. Programs are sampled; per program the execution space is enumerated (counted separately when capped).',
+        design_ref='DESIGN.md sections 3.1, 3.2, 4 (C01)',
+        note='Trusts CPython 3.12 and the instrumenter (self-test each run); loop bound 2, call depth 3; grammar of vlib/gen/programs.py, not all of Python. Two listed findings (global binding read at module level; annotation reading its own target) are classified from dynamic facts.'),
 }
 
 NOT_YET = 'check not built yet in this session (planned in DESIGN.md section 4); not claimed until its command exists'
